@@ -55,7 +55,7 @@ func New(opts ...ClientOption) Client {
 	c := &client{
 		closeCh: make(chan struct{}),
 		subs:    make(map[uint32][]func(*protocol.Packet)),
-		recvs:   make(map[uint32]chan *protocol.Packet),
+		recvs:   make(map[uint32]*waiter),
 	}
 
 	for _, opt := range opts {
@@ -70,6 +70,12 @@ func New(opts ...ClientOption) Client {
 		c.Logger = &protocol.DefaultLogger{}
 	}
 	return c
+}
+
+// waiter is the receiver of the response of one request, bound to the conn the request was written to
+type waiter struct {
+	ch   chan *protocol.Packet
+	conn ClientConn
 }
 
 // client is an socket client
@@ -99,7 +105,7 @@ type client struct {
 	subs map[uint32][]func(*protocol.Packet)
 
 	recvsMu sync.RWMutex
-	recvs   map[uint32]chan *protocol.Packet
+	recvs   map[uint32]*waiter
 
 	lastKeepaliveId uint32
 	lastPongAt      time.Time
@@ -155,7 +161,10 @@ func (c *client) dial(ctx context.Context, dialer DialConnFunc) (err error) {
 	c.Lock()
 	defer c.Unlock()
 	if c.conn, err = dialer(ctx, c.Logger, c.addr, c.handshake, c.dialOptions); err == nil {
-		c.conn.OnPacket(c.onPacket)
+		conn := c.conn
+		conn.OnPacket(func(p *protocol.Packet, e error) {
+			c.onPacket(conn, p, e)
+		})
 		c.conn.OnClose(c.onConnClose)
 	}
 	verifhook.Point("client.dial:done", verifhook.ID(c.conn))
@@ -271,10 +280,10 @@ func (c *client) reconnect() error {
 	}
 
 	c.recvsMu.Lock()
-	for _, ch := range c.recvs {
-		close(ch)
+	for _, w := range c.recvs {
+		close(w.ch)
 	}
-	c.recvs = make(map[uint32]chan *protocol.Packet)
+	c.recvs = make(map[uint32]*waiter)
 	c.recvsMu.Unlock()
 
 	dialer, _ := GetDialer(c.addr.Scheme)
@@ -340,13 +349,15 @@ func (c *client) Do(ctx context.Context, req *Request, opts ...RequestOption) (r
 	c.RLock()
 	defer c.RUnlock()
 
+	conn := c.conn
+
 	// no conn when the last dial failed
-	if c.conn == nil {
+	if conn == nil {
 		err = errConnClosed
 		return
 	}
 
-	rp, e := protocol.NewRequest(c.conn.Context(), req.Cmd, req.Body)
+	rp, e := protocol.NewRequest(conn.Context(), req.Cmd, req.Body)
 
 	if e != nil {
 		err = e
@@ -364,14 +375,14 @@ func (c *client) Do(ctx context.Context, req *Request, opts ...RequestOption) (r
 
 	// register the receiver before the request can be answered
 	rid := rp.Metadata.RequestId
-	ch := c.register(rid)
-	defer c.unregister(rid, ch)
+	w := c.register(rid, conn)
+	defer c.unregister(rid, w)
 
-	if err = c.write(&rp); err != nil {
+	if err = conn.Write(&rp, protocol.GzipSize(c.dialOptions.MinGzipSize)); err != nil {
 		return
 	}
 
-	res, err = c.recv(rc, rid, ch)
+	res, err = c.recv(rc, rid, w)
 	if err != nil {
 		return
 	}
@@ -530,7 +541,7 @@ func (c *client) keepalive() {
 	}
 }
 
-func (c *client) onPacket(packet *protocol.Packet, err error) {
+func (c *client) onPacket(conn ClientConn, packet *protocol.Packet, err error) {
 	if err != nil {
 		c.Logger.Errorf("conn receive packet error: %v", err)
 		c.reconnecting()
@@ -540,7 +551,7 @@ func (c *client) onPacket(packet *protocol.Packet, err error) {
 	c.Logger.Debugf("got packet, type: %s, cmd: %d, req_id: %d, status_code: %d", packet.Metadata.Type, packet.CMD(), packet.Metadata.RequestId, packet.Metadata.StatusCode)
 
 	if packet.IsControl() {
-		c.handleControl(packet)
+		c.handleControl(conn, packet)
 		return
 	}
 
@@ -550,7 +561,7 @@ func (c *client) onPacket(packet *protocol.Packet, err error) {
 	}
 
 	if packet.Metadata.Type == protocol.ResponsePacket {
-		c.handleResponse(packet)
+		c.handleResponse(conn, packet)
 		return
 	}
 
@@ -569,9 +580,9 @@ func (c *client) handlePush(packet *protocol.Packet) {
 	}
 }
 
-func (c *client) handleControl(packet *protocol.Packet) {
+func (c *client) handleControl(conn ClientConn, packet *protocol.Packet) {
 	if packet.IsPing() {
-		c.handlePing(packet)
+		c.handlePing(conn, packet)
 		return
 	}
 
@@ -586,40 +597,41 @@ func (c *client) handleControl(packet *protocol.Packet) {
 	}
 
 	if packet.IsAuth() || packet.IsReconnect() {
-		c.handleResponse(packet)
+		c.handleResponse(conn, packet)
 	}
 }
 
-func (c *client) handleResponse(packet *protocol.Packet) {
+func (c *client) handleResponse(conn ClientConn, packet *protocol.Packet) {
 	c.recvsMu.RLock()
 	defer c.recvsMu.RUnlock()
 
-	if ch, ok := c.recvs[packet.Metadata.RequestId]; ok {
+	// request ids restart on every conn: a response only answers a request written to the conn it came from
+	if w, ok := c.recvs[packet.Metadata.RequestId]; ok && w.conn == conn {
 		select {
-		case ch <- packet:
-			verifhook.Point("resp:lookup", uint64(packet.Metadata.RequestId), 1)
+		case w.ch <- packet:
+			verifhook.Point("resp:lookup", uint64(packet.Metadata.RequestId), 1, verifhook.ID(conn))
 		default:
 			c.Logger.Warnf("duplicate response of req %d", packet.Metadata.RequestId)
-			verifhook.Point("resp:lookup", uint64(packet.Metadata.RequestId), 2)
+			verifhook.Point("resp:lookup", uint64(packet.Metadata.RequestId), 2, verifhook.ID(conn))
 		}
 		return
 	}
 	c.Logger.Warnf("no receiver for req %d", packet.Metadata.RequestId)
-	verifhook.Point("resp:lookup", uint64(packet.Metadata.RequestId), 0)
+	verifhook.Point("resp:lookup", uint64(packet.Metadata.RequestId), 0, verifhook.ID(conn))
 }
 
-func (c *client) handlePing(packet *protocol.Packet) {
+func (c *client) handlePing(conn ClientConn, packet *protocol.Packet) {
 	if c.onPing != nil {
 		c.onPing(packet)
 	}
 
-	if !c.conn.NeedHandleControl() {
+	if !conn.NeedHandleControl() {
 		return
 	}
 
-	res, _ := protocol.NewResponse(c.conn.Context(), uint32(control.Command_CMD_HEARTBEAT), protocol.StatusSuccess, packet.Body, protocol.WithRequestId(packet.Metadata.RequestId))
+	res, _ := protocol.NewResponse(conn.Context(), uint32(control.Command_CMD_HEARTBEAT), protocol.StatusSuccess, packet.Body, protocol.WithRequestId(packet.Metadata.RequestId))
 
-	if err := c.write(&res); err != nil {
+	if err := conn.Write(&res, protocol.GzipSize(c.dialOptions.MinGzipSize)); err != nil {
 		c.Logger.Errorf("failed to send heartbeat ack, err: %v", err)
 	}
 }
@@ -632,30 +644,30 @@ func (c *client) handlePong(packet *protocol.Packet) {
 	c.lastPongAt = time.Now()
 }
 
-func (c *client) register(rid uint32) chan *protocol.Packet {
-	ch := make(chan *protocol.Packet, 1)
+func (c *client) register(rid uint32, conn ClientConn) *waiter {
+	w := &waiter{ch: make(chan *protocol.Packet, 1), conn: conn}
 
 	c.recvsMu.Lock()
-	c.recvs[rid] = ch
-	verifhook.Point("waiter:register", uint64(rid))
+	c.recvs[rid] = w
+	verifhook.Point("waiter:register", uint64(rid), verifhook.ID(conn))
 	c.recvsMu.Unlock()
 
-	return ch
+	return w
 }
 
-func (c *client) unregister(rid uint32, ch chan *protocol.Packet) {
+func (c *client) unregister(rid uint32, w *waiter) {
 	c.recvsMu.Lock()
 	// the id may have been taken over by a newer request after reconnect replaced the table
-	if c.recvs[rid] == ch {
+	if c.recvs[rid] == w {
 		delete(c.recvs, rid)
 	}
 	verifhook.Point("waiter:unregister", uint64(rid))
 	c.recvsMu.Unlock()
 }
 
-func (c *client) recv(ctx context.Context, rid uint32, ch chan *protocol.Packet) (res *protocol.Packet, err error) {
+func (c *client) recv(ctx context.Context, rid uint32, w *waiter) (res *protocol.Packet, err error) {
 	select {
-	case p, ok := <-ch:
+	case p, ok := <-w.ch:
 		// closed by reconnect: the conn the request was written to is gone
 		if !ok {
 			err = errConnClosed
